@@ -12,7 +12,7 @@ from ..util import Info, Raised, expect, expect_eq, impl
 ID = "C12"
 ATHERIS = True  # thorough tier: coverage-guided second engine over the same strategy/run_case
 LEVEL = "exploration"
-BUDGET = {"quick": 12000, "thorough": 1000000}
+BUDGET = {"quick": 12000, "thorough": 600000}
 RULE = (
     "case = history of set / set-empty / delete / delete_subtrie (method and dict syntax) "
     "on non-empty keys. Keys are bit-structure-directed: a base key of 1-4 bytes (thorough "
